@@ -46,6 +46,10 @@ type World struct {
 
 // Quiet silences the repo's logger and the Println of InitAllKeepers.
 func Quiet() {
+	if lvl := os.Getenv("VERIF_LAVA_LOG"); lvl != "" {
+		utils.SetGlobalLoggingLevel(lvl) // debugging aid: VERIF_LAVA_LOG=warn shows the repo's own warnings/errors
+		return
+	}
 	utils.SetGlobalLoggingLevel("fatal")
 }
 
